@@ -390,6 +390,34 @@ pub fn execute(c: &ThreadCase) -> ThreadObs {
             Err(_) => break,
         }
     }
+    if !finished.iter().all(|f| *f) {
+        // a loaded machine can make ten seconds pass without a thread being at fault: before
+        // anything is concluded, threads that are merely slow (neither blocked in futex() nor
+        // spinning) get another half minute
+        let extended = std::time::Instant::now() + std::time::Duration::from_secs(30);
+        loop {
+            let slow = finished.iter().enumerate().any(|(t, f)| {
+                !*f && {
+                    let sc = std::fs::read_to_string(format!("/proc/self/task/{}/syscall", tids[t])).unwrap_or_default();
+                    !sc.starts_with("202 ")
+                }
+            });
+            let left = extended.saturating_duration_since(std::time::Instant::now());
+            if !slow || left.is_zero() {
+                break;
+            }
+            match rx.recv_timeout(left.min(std::time::Duration::from_millis(500))) {
+                Ok((t, v)) if v < 0 => tids[t] = -v,
+                Ok((t, _)) => {
+                    finished[t] = true;
+                    if finished.iter().all(|f| *f) {
+                        break;
+                    }
+                }
+                Err(_) => {}
+            }
+        }
+    }
     if finished.iter().all(|f| *f) {
         for h in handles {
             let _ = h.join();
